@@ -692,7 +692,7 @@ func (a *Act) indexAddr(st *State, x *ssa.IndexAddr) Val {
 	case *types.Slice:
 		s := vc.define("sl", sSlice, v.S)
 		vc.oblige(a.oblName("nopanic-index"), "nopanic", a.props, a.pos(x.Pos()), st.guard, fmt.Sprintf("(and (<= 0 %s) (< %s (sl_len %s)))", i.S, i.S, s), "slice index in range")
-		addr := fmt.Sprintf("(elem (sl_arr %s) (+ (sl_off %s) %s))", s, s, i.S)
+		addr := fmt.Sprintf("(selem %s %s)", s, i.S)
 		return Val{S: vc.define("ea", sInt, addr), Sort: sInt, T: x.Type()}
 	case *types.Pointer:
 		if arr, ok := u.Elem().Underlying().(*types.Array); ok {
